@@ -346,6 +346,8 @@ class UnmanagedBSE(ManagedBSE):
                 if tv in ('zero', 'try'): vio('C10', 'a get with a zero timeout (or try_get) is waiting for an object')
                 if tv == 'pos' and not rt: vio('C10', 'a get with a timeout but without a runtime is waiting instead of reporting NoRuntimeSpecified')
             elif res[0] == 'err':
+                if res[1] == 'Closed' and not st.gget('close_started'):
+                    vio('C12', 'a get reported Closed although close() was never called'); vio('C05', 'a get reported Closed on an open pool')
                 if res[1] == 'Timeout':
                     if tv is None: vio('C10', 'a get without any timeout reported Timeout')
                     elif tv == 'pos' and not expired: vio('C10', 'Timeout was reported although the deadline had not passed')
@@ -427,6 +429,9 @@ class UnmanagedBSE(ManagedBSE):
             if status[3] != len(blocked_get):
                 out.append(s.vio('C05', f'at rest status().waiting is {status[3]} while {len(blocked_get)} callers are blocked in get()', st))
             if snap['queue'] != avail: out.append(s.vio('C05', f'the queue holds {snap["queue"]} objects, ground truth {avail}', st))
+            # every object waiting in the pool can be obtained: one permit of the object semaphore per queued object (no call is in flight here)
+            if not pending and isinstance(snap.get('permits'), int) and snap['permits'] != avail:
+                out.append(s.vio('C05', f'{avail} object(s) are waiting in the pool but {snap["permits"]} can be obtained (permits of the object semaphore)', st))
             # nobody waits in vain: with every pending call queued (none holds or was promised a permit) a getter may only be queued
             # while no object is in the pool, an adder only while the pool is full
             inflight = [t for t in pending if t not in queued]
